@@ -138,7 +138,7 @@ class Engine:
     # ---------------------------------------------------------------- main flow
     def run(self):
         ck = self.ck
-        pr = ck.proofs(self.pid)
+        pr = ck.proofs(self.pid, self.tier)
         self.pr = pr
         ok, out = ck.build_driver()
         if not ok:
@@ -293,7 +293,7 @@ class Engine:
             d["path"] = path
             return special.replay(self, d)
         if d["kind"] == "proof":
-            pr = ck.proofs(self.pid)
+            pr = ck.proofs(self.pid, self.tier)
             print("proofs ok" if pr["ok"] else pr["log"][-1500:])
             return 0 if pr["ok"] else 1
         text = d["header"] + "\n" + "\n".join(d["ops"]) + "\n"
@@ -323,6 +323,7 @@ class Engine:
         cov["trusted_base"] = TRUSTED_BASE
         cov["theorems"] = pr["theorems"]
         cov["print_assumptions"] = pr["assumptions"]
+        cov["coqchk"] = pr.get("coqchk", {"ran": False, "note": "run in the thorough tier only (about 40 s per property file)"})
         cov["evaluations"] = getattr(self, "evaluations", 0)
         cov["distinct_nontrivial"] = getattr(self, "distinct", 0)
         cov["rule"] = ("correspondence histories are generated by tools/gen.py from one PRNG seeded by VERIF_SEED; a history counts as "
